@@ -38,8 +38,8 @@ func (*c35) ID() string { return "C35" }
 func (*c35) Rule() string {
 	return "the built shfmt binary runs 'shfmt -w <target>' under strace with SIGKILL injected at the entry of the k-th call (per thread) of one system call at a time out of {openat, read, write, pwrite64, fchmod, fchmodat, fsync, fdatasync, close, renameat, renameat2, rename, unlinkat, linkat, ftruncate, newfstatat, fstat} for k = 1, 2, ... until a run with that injection completes unkilled (thorough: also every k over all system calls together); a fresh copy of the scenario directory per run. Scenarios: files of 1 line, ~5 KiB and ~70 KiB needing reformatting, modes 0600/0644/0755/0444/0640/0666/0777/0400, in the working directory or a subdirectory, base names of ordinary length and of 236-255 bytes, TMPDIR on the same file system or missing, with or without an .editorconfig; targets given as a regular file, as a symlink argument, as a FIFO argument, or found by walking a directory that also holds a symlink and a FIFO. Oracle after every run: the file holds exactly its original bytes or exactly the formatted bytes (reference: plain shfmt on the same file), its permission bits are unchanged, symlinks and FIFOs are still what they were with the link target unchanged; after a run that was not killed: status 0 means the file holds the formatted bytes, and the directory and TMPDIR list exactly the original entries. The evidence counts the (system call, path class) boundaries at which a kill landed. Non-trivial: at least one kill landed on a call naming the target or its temporary file; distinct: hash of the scenario."
 }
-func (*c35) NumCases(tier string) int      { return tierN(tier, 16, 160) }
-func (*c35) MinNontrivial(tier string) int { return tierN(tier, 8, 100) }
+func (*c35) NumCases(tier string) int      { return tierN(tier, 16, 200) }
+func (*c35) MinNontrivial(tier string) int { return tierN(tier, 8, 90) }
 func (*c35) New() any                      { return &KillCase{} }
 func (*c35) CaseTimeout() time.Duration    { return 1200 * time.Second }
 func (*c35) Assumptions() []string {
